@@ -297,7 +297,11 @@ def run(ctx):
         if np.abs(md.compute_rg(t) - rg_u).max() > 2e-6 * max(1.0, rg_u.max()):
             viol("rg|unweighted", "compute_rg differs from sqrt(mean |x - centre|^2) by %.3g" % np.abs(md.compute_rg(t) - rg_u).max(), rpm)
         rg_w = np.sqrt((((X64 - com[:, None]) ** 2).sum(-1) * masses).sum(1) / masses.sum())
-        got_rgw = md.compute_rg(t, masses=masses)
+        try:
+            got_rgw = md.compute_rg(t, masses=masses if k % 2 else [float(m_) for m_ in masses])    # (an array, or a plain list of masses)
+        except Exception as e_:
+            viol("rg|masses-as-list", "compute_rg(masses=<list of floats>) raises %s: %s" % (type(e_).__name__, str(e_)[:80]), rpm)
+            got_rgw = rg_w
         if np.abs(got_rgw - rg_w).max() > 2e-6 * max(1.0, rg_w.max()):
             viol("rg|mass-weighted", "compute_rg(masses) = %.6f, sqrt(sum m |x - com|^2 / sum m) = %.6f" % (got_rgw[0], rg_w[0]), rpm)
         G = np.array([(X64[f] - cog[f]).T @ (X64[f] - cog[f]) / n for f in range(nfr)])
@@ -354,14 +358,17 @@ def run(ctx):
                 viol("density|masses", "density(masses=...) differs from sum(masses)/volume", rpm)
             prs = np.array([(i, j) for i in range(n) for j in range(i + 1, n)])
             prs = prs[np.array(rng.sample(range(len(prs)), min(len(prs), 300)))]
-            r_range = rng.choice([None, (0.0, 1.0), (0.1, 0.75), (0.05, 1.3)])
-            bw = rng.choice([0.005, 0.03, 0.1])
-            nb = rng.choice([None, None, 7, 25])
+            r_range = rng.choice([None, (0.0, 1.0), (0.1, 0.75), (0.05, 1.3), (0.0, 0.7), (0.0, 0.3), (0.0, 0.6)])
+            bw = rng.choice([0.005, 0.03, 0.1, 0.1, 0.2])
+            nb = rng.choice([None, None, None, 7, 25])
+            if k % 4 == 1:   # ranges that are a whole number of bins whose quotient is not one in floating point
+                r_range, bw, nb = [((0.0, 0.7), 0.1, None), ((0.0, 0.3), 0.1, None), ((0.0, 0.6), 0.2, None)][(k // 4) % 3]
             kwr = dict(r_range=r_range, bin_width=bw, n_bins=nb, periodic=True)
             try:
                 r, g = md.compute_rdf(t, prs, **kwr)
                 lo, hi = r_range if r_range is not None else (0.0, 1.0)
-                nbins = nb if nb is not None else int((hi - lo) / bw)
+                # the number of bins of width bw that fit into the range, in exact decimal arithmetic (0.7 / 0.1 is 7, not 6.999…)
+                nbins = nb if nb is not None else int((Fraction(str(hi)) - Fraction(str(lo))) / Fraction(str(bw)))
                 edges = np.linspace(lo, hi, nbins + 1)
                 d = md.compute_distances(t, prs, periodic=True).astype(np.float64).ravel()
                 hist = np.zeros(nbins)
@@ -378,7 +385,7 @@ def run(ctx):
                     viol("rdf|bins", "compute_rdf(r_range=%s, bin_width=%s, n_bins=%s) returns %d bin centres, expected %d" % (r_range, bw, nb, len(r), nbins), dict(rpm, rdf=str(kwr)))
                 elif not near[0] and np.abs(g - wantg).max() > 1e-6 * max(1.0, np.abs(wantg).max()):
                     viol("rdf|value", "compute_rdf differs from histogram / (n_pairs * sum(1/V) * shell volume) by %.3g" % np.abs(g - wantg).max(), dict(rpm, rdf=str(kwr)))
-                if nbins <= 40 and len(d) <= 400:
+                if nbins <= 40 and len(d) <= 400 and len(r) == nbins:
                     reqs.append("rdf %s %s %d %d %s %s" % (rat(lo), rat(hi), nbins, len(prs), rat(float(np.sum(1.0 / vol))), " ".join(rat(x) for x in d)))
                     meta.append(("rdf", k, None, (np.asarray(g, dtype=np.float64), np.asarray(r, dtype=np.float64)), None))
             except Exception as e:
